@@ -17,6 +17,7 @@ EXPLANATION = (
     "propagated - duplicate label, second .orig, undefined label and out-of-range literal all reach the caller as Err, and "
     "the symbol table reports duplicates through insert() returning Some. R4: the lexer's literal range is the union of the "
     "i16 and u16 parses ([-32768, 65535])."
+    " R3 also: behind the failure of a call of one of the lexer's / parser's own fallible routines every way to a return carries an error (no failure is overwritten by a second attempt), and resolving the labels (AsmLine::backpatch, Air::backpatch) fails for an undefined label only - the label distance is judged once, by the guard of R1."
 )
 NOT_DECIDED = "nothing of substance for the range clauses; well-formedness of whole statements is C01/C05's subject"
 
@@ -230,6 +231,56 @@ def run(ctx):
             ctx.oblig(ok, {what: "Err reaches the caller"}, "result inspected, Err edge returns")
             if not ok:
                 ctx.violation("dropped|%s" % what, sp_file_line(t.get("sp")), "the %s error of `%s` does not reach the caller of parse()" % (what, short(callee)))
+    # a rejection raised anywhere in the lexer or the parser is handed up, never overwritten by a second attempt: behind the Err outcome of
+    # a call of one of their own fallible routines, every way to a return passes a place where an error is put into the return value
+    # (`?`, `Err(e) => Err(e)`, the result itself returned)
+    nsw = 0
+    for n, f in sorted(prog.fns.items()):
+        if f.bkind != "fn" or not (n.startswith("lace::lexer::") or n.startswith("lace::parser::")) or "Result<" not in str(f.d.get("output", "")):
+            continue
+        errb = kit.error_blocks(f)
+        rets = {b for b in f.live_blocks() if f.term(b)["k"] == "return"}
+        for b, t, c in f.calls():
+            g = prog.fns.get(c or "")
+            if g is None or not (c.startswith("lace::lexer::") or c.startswith("lace::parser::")) or "miette" not in str(g.d.get("output", "")) \
+                    or "Result<" not in str(g.d.get("output", "")) or t.get("t") is None or not place_is_local(t["dest"]) or t["dest"]["l"] == 0:
+                continue
+            tgt = kit.ok_target_of_call(f, b)
+            if tgt is None:
+                continue
+            nsw += 1
+            ctx.analysed_fns.add(n)
+            # the result handed back as it is counts as passing the error on
+            res = t["dest"]["l"]
+            hands_on = {bb for bb in f.live_blocks() for s_ in f.stmts(bb) if s_["k"] == "assign" and s_["p"]["l"] == 0 and place_is_local(s_["p"])
+                        and s_["r"]["k"] == "use" and s_["r"]["a"].get("p") is not None and s_["r"]["a"]["p"]["l"] == res}
+            lost = f.reachable(t["t"], avoid={tgt} | errb | hands_on) & rets
+            ctx.instance(1)
+            ctx.oblig(not lost, None)
+            if lost:
+                ctx.violation("error-overwritten|%s|%s" % (short(n), short(c)), sp_file_line(t.get("sp")),
+                              "`%s`: when `%s` fails, a way to the return does not carry an error (the failure is dropped and something else is returned): a source "
+                              "the lexer rejects at this token - a stack mnemonic without the feature, a malformed literal - is then accepted or reported as something else"
+                              % (short(n), short(c)))
+    ctx.oblig(nsw >= 5, {"fallible lexer/parser calls whose outcome is examined": nsw}, "floor 5")
+    # resolving the labels rejects a statement for one reason only - its label is not defined; whether the distance fits the field is
+    # decided once, by the encoder's distance guard (R1). Every place in AsmLine::backpatch / Air::backpatch that puts an error into the
+    # return value is the `?` on the outcome of Label::filled (or on the per-statement result handed up)
+    for bn in ("lace::air::AsmLine::backpatch", "lace::air::Air::backpatch"):
+        bf = ctx.fn(bn)
+        for eb in sorted(kit.error_blocks(bf)):
+            te = bf.term(eb)
+            ctx.instance(1)
+            okb = False
+            if te["k"] == "call" and kit.is_from_residual(callee_of(te)):
+                src_ = bf.expr(te["args"][0], 10)
+                okb = any(x[0] == "call" and x[1] in ("lace::symbol::Label::filled", "lace::air::AsmLine::backpatch") for x in expr_walk(src_)) or \
+                    any(x[0] == "call" and re.search(r"Iterator>?::(try_for_each|try_fold)$", str(x[1])) for x in expr_walk(src_))
+            ctx.oblig(okb, None)
+            if not okb:
+                ctx.violation("backpatch-extra-rejection|%s" % short(bn), bf.file_line(),
+                              "`%s` can fail for a reason other than an undefined label: a second test of the label distance in front of the encoder's own "
+                              "guard can reject a reference the field still holds (or accept one it does not)" % short(bn))
     # Label::insert detects duplicates through HashMap::insert returning Some
     li = [n for n in prog.fns if n.startswith("lace::symbol::Label::insert::{closure")]
     ctx.need(li, "closure of Label::insert")
